@@ -155,15 +155,15 @@ var QueryCalls int
 //@ end
 
 //@ func (*MultiOpQueryer).fetchFile
-//@ props C11 C09 C07
-//@ returns resp, err
+//@ props C11 C09 C07 C06
+//@ returns out, err
 //@ requires q != nil && forall(k, 0, len(q.mdwares), q.mdwares[k] != nil)
 // which requests are file requests, and what the service answers, is the protocol boundary (ghosts FileReq, Ans)
-//@ assumes-post err == nil && resp == nil ==> !FileReq(input)
-//@ assumes-post err == nil && resp != nil ==> FileReq(input)
-//@ assumes-post err == nil && resp != nil && len(resp.Errors) == 0 ==> Ans(input, resp.Data)
-//@ ensures[fresh] err == nil && resp != nil ==> fresh(resp)
-//@ ensures[status-checked] err == nil && resp != nil ==> 200 <= LastStatus && LastStatus <= 299
+//@ ensures[not-a-file-request] err == nil && out == nil ==> !FileReq(input) @props C11 C06
+//@ ensures[file-request] err == nil && out != nil ==> FileReq(input)
+//@ assumes-post err == nil && out != nil && len(out.Errors) == 0 ==> Ans(input, out.Data)
+//@ ensures[fresh] err == nil && out != nil ==> fresh(out)
+//@ ensures[status-checked] err == nil && out != nil ==> 200 <= LastStatus && LastStatus <= 299
 //@ ensures[errkind] gqlerrors.nonvacuous(err)
 //@ modifies-assumed fresh, entries(map[string]interface{}), elems(interface{}), global(LastStatus), all(MultiOpQueryer.client)
 //@ end
@@ -206,7 +206,9 @@ var QueryCalls int
 //@ end
 
 //@ func (UploadMap).Empty
-//@ props C07 C09
+//@ props C07 C09 C11
+//@ ensures[spec] result == (len(u) == 0)
+//@ modifies fresh
 //@ end
 
 //@ func (*UploadMap).Add
@@ -217,6 +219,8 @@ var QueryCalls int
 //@ func extractFiles
 //@ props C07 C09 C11
 //@ ensures[map] result != nil
+// this is what FileReq means: the request carries at least one upload
+//@ assumes-post FileReq(input) == (len(*result) != 0)
 //@ end
 
 //@ func (*UploadMap).extract
